@@ -216,11 +216,11 @@ impl Runner {
     }
 
     /// Virtual time is exact only if the whole run lies inside one wall-clock second (whole-second
-    /// stamps of the async caches) and lasts less than a second (`Instant` ages of the sync caches);
-    /// runs without any ttl are not time-sensitive at all.
+    /// stamps of the async caches) and lasts less than a second (`Instant` ages of the sync caches).
     pub fn run_aligned(&self, s: &MScript, align: bool) -> Option<Vec<Value>> {
         let (threads, line, mut cur) = self.prepare(s, "reset");
-        let timed = s.fixtures.iter().any(|n| self.fixtures[n].cfg.ttl != 0);
+        // (also without any ttl: the projected state shows every entry's age in whole seconds)
+        let timed = true;
         if timed && align {
             align_to_second();
         }
